@@ -20,6 +20,7 @@ class Spec:
         self.checker_name = ''
         self.model_name = ''
         self.gen = lambda rng, tier: []
+        self.normalize = None
         for k, v in kw.items():
             setattr(self, k, v)
 
@@ -242,7 +243,66 @@ C05 = Spec('C05',
     checker_name='ChkReplace.chk_C05', model_name='Sem/ReplaceObj.v + Stream/Replace.v',
 )
 
-REGISTRY = {'C12': C12, 'C16': C16, 'C01': C01, 'C05': C05, 'C02': C02, 'C03': C03, 'C07': C07, 'C08': C08, 'C11': C11}
+# ---------------- histories and pairs ----------------
+def cfgs_hist():
+    return [gen_tree.Cfg(ascii=True, warm=0.0), gen_tree.Cfg(ascii=True, sms=0.35, warm=0.0),
+            gen_tree.Cfg(ascii=True, replace=0.35, cached=0.1, warm=0.0), gen_tree.Cfg(ascii=True, sms=0.3, inner=0.3, warm=0.0)]
+
+def gen_c10(rng, tier):
+    n = 2500 if tier == 'quick' else 100000
+    cf = cfgs_hist()
+    return [gen_hist.gen_chist_case(rng, cf[i % len(cf)]) for i in range(n)]
+
+C10 = Spec('C10',
+    kinds={'chist': {'ser': gen_hist.ser_hist('chist'), 'proj': None, 'shrink': gen_hist.shrink_hist}},
+    gen=gen_c10, normalize=gen_hist.mask_u64,
+    rule='call histories (1-8 calls: source/buffer/size/rope/map/stream in all option sets/hash/clone) on a CachedSource over a random ASCII tree; every answer compared with the answer of the freshly built wrapped source; non-trivial = at least 2 calls and output length >= 2',
+    explanation='store-passing model of the caches (Stream/Tree.v); correspondence compares every answer along the history; chk_hist judges text/size/end-info equality and attribution equality of maps and streams against the wrapped source',
+    checker_name='ChkHist.chk_hist', model_name='Stream/Tree.v (store) + Api/ApiHist.v')
+
+def gen_c13(rng, tier):
+    n = 2500 if tier == 'quick' else 100000
+    cf = cfgs_hist()
+    return [gen_hist.gen_law_case(rng, cf[i % len(cf)]) for i in range(n)]
+
+C13 = Spec('C13',
+    kinds={'pair': {'ser': gen_hist.ser_pair, 'proj': None, 'shrink': gen_hist.shrink_pair}},
+    gen=gen_c13, normalize=gen_hist.mask_u64,
+    rule='triples of random ASCII trees a b c combined by a law: typed/boxed nesting (left and right), add-later, concat of concats, single child, empty neighbours (5 kinds of empty source), Replace without / with only empty replacements, CachedSource wrapper; both sides observed independently',
+    explanation='both sides of each composition law are built and observed; chk_C13 compares text and per-position attribution of map() for both column settings (columns up to the identity refinement for empty insertions)',
+    checker_name='ChkHist.chk_C13', model_name='Stream/Tree.v')
+
+def gen_c14(rng, tier):
+    n = 1500 if tier == 'quick' else 60000
+    cf = cfgs_hist() + [gen_tree.Cfg(ascii=False, bufs=0.2, invalid_utf8=0.3, warm=0.0)]
+    out = []
+    for i in range(n):
+        out.append(gen_hist.gen_edit_pair(rng, cf[i % len(cf)]))
+        if i % 2 == 0:
+            out.append(gen_hist.gen_thist_case(rng, cf[i % len(cf)]))
+    return out
+
+C14 = Spec('C14',
+    kinds={'pair': {'ser': gen_hist.ser_pair, 'proj': None, 'shrink': gen_hist.shrink_pair},
+           'thist': {'ser': gen_hist.ser_hist('thist'), 'proj': None, 'shrink': gen_hist.shrink_hist}},
+    gen=gen_c14, normalize=gen_hist.mask_u64,
+    rule='pairs of trees: identical by construction (25%), one edit apart (leaf text/type, name, replacement range/content/name/enforce, child added/removed, attached map, inner map, flag) or independent, each side after a random observer history (0-5 calls), compared with ==, both directions, recorded typed hasher streams, and all observers; plus observer/clone histories on one object compared call by call with a fresh object',
+    explanation='eq and hash are functions of constructor data in the model (Sem/HashEq.v): correspondence of the truth table of == and of the typed hasher stream after arbitrary observer histories ties history-independence to the code; chk_C14_pair: symmetry, == implies equal hash stream and equal observations; chk_hist: repeatability and clones',
+    checker_name='ChkHist.chk_C14_pair / chk_hist', model_name='Sem/HashEq.v')
+
+def gen_c20(rng, tier):
+    n = 2500 if tier == 'quick' else 100000
+    cf = cfgs_hist() + [gen_tree.Cfg(ascii=False, bufs=0.2, invalid_utf8=0.3, warm=0.0)]
+    return [gen_hist.gen_edit_pair(rng, cf[i % len(cf)]) for i in range(n)]
+
+C20 = Spec('C20',
+    kinds={'pair': {'ser': gen_hist.ser_pair, 'proj': None, 'shrink': gen_hist.shrink_pair}},
+    gen=gen_c20, normalize=gen_hist.mask_u64,
+    rule='pairs of trees one edit apart (every kind of edit at a random depth), identical, or independent; typed hasher streams recorded after random observer histories; SourceMapSource name edits are outside the domain',
+    explanation='hash_events (Sem/HashEq.v) is a prefix code of the constructor data; correspondence of the recorded typed hasher stream (Cached digests masked) ties it to the code; chk_C20_pair: different source/buffer/map() implies different hash stream and ==false',
+    checker_name='ChkHist.chk_C20_pair', model_name='Sem/HashEq.v')
+
+REGISTRY = {'C12': C12, 'C16': C16, 'C01': C01, 'C05': C05, 'C10': C10, 'C13': C13, 'C14': C14, 'C20': C20, 'C02': C02, 'C03': C03, 'C07': C07, 'C08': C08, 'C11': C11}
 
 def get(pid):
     return REGISTRY[pid]
